@@ -277,6 +277,11 @@ func (w *World) ruleNoGetterOnInvalid(r *Report, rule string) {
 				if guardedValid(recv, b) {
 					continue
 				}
+				// not by dominance in this function: path by path (the test may have been
+				// made on a copy held in a local array of parts — rules_validity_px.go)
+				if w.pxGuardedValid(fn, c) {
+					continue
+				}
 				cnt++
 				bad++
 				r.add(rule, fmt.Sprintf("%s · (reflect.Value).%s #%d", fnName(fn), sc.Name(), cnt), w.instrPos(c), false,
